@@ -284,6 +284,9 @@ func runCheck(id, tier, filter string) int {
 				broken = append(broken, fmt.Sprintf("%s: %d assertion queries returned unknown", e.Name, res.Unknown))
 			}
 			for k, n := range res.Aborted {
+				if k == "VIOLATED" {
+					continue // the violation itself is reported (and replayed) separately
+				}
 				broken = append(broken, fmt.Sprintf("%s: %d paths aborted with %s (%s)", e.Name, n, k, firstMsg(res.AbortMsgs, k)))
 			}
 			if res.SolverErrors > 0 {
